@@ -28,6 +28,7 @@ import (
 	"math/rand"
 	"os"
 	"runtime"
+	"runtime/pprof"
 	"time"
 
 	"verifharness/lib/evid"
@@ -130,6 +131,7 @@ func replay() {
 		fmt.Println("unknown case kind", wrap.Kind)
 		os.Exit(3)
 	}
+	pprof.StopCPUProfile()
 	rep.Finish()
 }
 
@@ -148,6 +150,11 @@ func main() {
 
 	if rep.ReplayFile != "" {
 		replay()
+	}
+	if pf := os.Getenv("C16_PROF"); pf != "" {
+		f, _ := os.Create(pf)
+		pprof.StartCPUProfile(f)
+		defer pprof.StopCPUProfile()
 	}
 
 	rng := rand.New(rand.NewSource(rep.Seed))
@@ -254,5 +261,6 @@ func main() {
 	if rep.Get("malformed_rejected_length_le_12") == 0 || rep.Get("malformed_rejected_short_body") == 0 {
 		rep.Inconclusive("no malformed stream was rejected")
 	}
+	pprof.StopCPUProfile()
 	rep.Finish()
 }
